@@ -41,6 +41,7 @@ type unit struct {
 	ext     int
 	bound   int
 	window  int
+	slim    bool
 }
 
 func (u unit) name() string {
@@ -111,8 +112,17 @@ func clients(c *vf.Ctx, sp map[string]*signerSpec) (full, narrow []*clientSpec) 
 	// every ordered subset of {Password, KeyboardInteractive, PublicKeys(k1), PublicKeys(k1,k2)}
 	k1, k2 := sp["ed1"], sp["ed2"]
 	for _, ms := range orderedSubsets([]methodSpec{pw(), ki(), pk(k1), pk(k1, k2)}) {
-		full = append(full, newClient(cbNone, ms...))
+		cs := newClient(cbNone, ms...)
+		cs.core = true
+		cs.skeleton = -1
+		for _, m := range ms {
+			if m.kind == mPK && len(m.signers) == 1 {
+				cs.core = false
+			}
+		}
+		full = append(full, cs)
 	}
+	nsub := len(full)
 	// RetryableAuthMethod and AuthCallback
 	full = append(full,
 		newClient(cbNone, retry(pw(), 2)),
@@ -125,6 +135,10 @@ func clients(c *vf.Ctx, sp map[string]*signerSpec) (full, narrow []*clientSpec) 
 		newClient(cbPwIfAllowed, pk(k1, k2), ki()),
 		newClient(cbAlwaysPw, ki()),
 	)
+	for _, cs := range full[nsub:] {
+		cs.core = true
+		cs.skeleton = -1
+	}
 	// key kinds: the same method skeletons with every pair of signer kinds
 	pairs := [][2]string{
 		{"edCert", "edNative"}, {"ed1", "edPlain"},
@@ -134,19 +148,19 @@ func clients(c *vf.Ctx, sp map[string]*signerSpec) (full, narrow []*clientSpec) 
 	}
 	for _, p := range pairs {
 		a, b := sp[p[0]], sp[p[1]]
-		narrow = append(narrow,
+		sk := []*clientSpec{
 			newClient(cbNone, pk(a)),
 			newClient(cbNone, pk(a, b)),
 			newClient(cbNone, pw(), pk(a, b)),
 			newClient(cbNone, pk(b, a), ki()),
-		)
-		if c.Thorough {
-			narrow = append(narrow,
-				newClient(cbNone, ki(), pk(a), pw()),
-				newClient(cbNone, retry(pk(a, b), 2), pw()),
-				newClient(cbFallback, pk(b, a), pw()),
-			)
+			newClient(cbNone, ki(), pk(a), pw()),
+			newClient(cbNone, retry(pk(a, b), 2), pw()),
+			newClient(cbFallback, pk(b, a), pw()),
 		}
+		for i, cs := range sk {
+			cs.skeleton = i
+		}
+		narrow = append(narrow, sk...)
 	}
 	return
 }
@@ -161,48 +175,78 @@ func run(c *vf.Ctx) {
 	if c.Thorough {
 		k = 3
 	}
-	c.Rule(fmt.Sprintf("part 1: for every client configuration (all 64 ordered subsets of {Password, KeyboardInteractive, PublicKeys(k1), PublicKeys(k1,k2)}; RetryableAuthMethod and AuthCallback variants; 14 pairs of signer kinds {ed25519, RSA AlgorithmSigner, RSA MultiAlgorithmSigner with 5 algorithm lists, RSA/ed25519 certificates over each, plain Signer, the package's own signer} in 4 (thorough 7) method skeletons) x server persona {accepting, rejecting, partial-success-forever} x EXT_INFO variant (8 for RSA configurations, 2 otherwise): ALL executions of the real clientAuthenticate in which the scripted server deviates from the persona's default answer at <=%d points (menu per request: FAILURE with each of the 8 method lists x partial success yes/no, SUCCESS, 4 kinds of PK_OK, INFO_REQUEST with 0/1/2 prompts, banner, EXT_INFO, DISCONNECT, EOF, unexpected type, truncated message); non-trivial = distinct (persona, EXT_INFO variant, multiset of (deviating answer, request kind it answers)) with >=1 deviation; states = distinct abstract (persona, pending request kind, latest list, requests so far, deviations) tuples; oracle = trace invariants + reference model ref/sshclientauth (RFC 4252/4256/8308/8332 codec, algorithm choice, signed data, standard library signature verification). part 2: real NewClientConn x real NewServerConn over net.Pipe for every compatible client method set x server configuration", k))
+	tierNote := "quick tier: signer-kind configurations use skeletons 2-4, 6 EXT_INFO variants and 4 of the 8 method lists {all, all but publickey, publickey only, empty} in FAILURE answers; executions that run to the 64-attempt cap (partial-success-forever persona, looping AuthCallback) take <=1 deviation within their first 6 choice points"
+	if c.Thorough {
+		tierNote = "thorough tier: all skeletons, EXT_INFO variants and method lists at <=2 deviations; <=3 deviations for the 24 core configurations (ordered subsets of {Password, KeyboardInteractive, PublicKeys(k1,k2)}, RetryableAuthMethod/AuthCallback variants; accepting and rejecting persona, no EXT_INFO) and for PublicKeys(a,b) of every signer pair (accepting persona, server-sig-algs=rsa-sha2-256,rsa-sha2-512); cap-reaching executions <=2 (signer-kind configurations <=1) deviations within their first 8 choice points"
+	}
+	c.Rule("part 1: for every client configuration (all 64 ordered subsets of {Password, KeyboardInteractive, PublicKeys(k1), PublicKeys(k1,k2)}; 9 RetryableAuthMethod and AuthCallback variants; 14 pairs of signer kinds {ed25519, RSA AlgorithmSigner, RSA MultiAlgorithmSigner with 5 algorithm lists, RSA/ed25519 certificates over each, plain Signer, the package's own signer} in 7 method skeletons) x server persona {accepting, rejecting, partial-success-forever} x EXT_INFO variant (8 for RSA configurations, 2 otherwise): ALL executions of the real clientAuthenticate in which the scripted server deviates from the persona's default answer at <=2 points (menu per request: FAILURE with each of the 8 method lists x partial success yes/no, SUCCESS, 4 kinds of PK_OK, INFO_REQUEST with 0/1/2 prompts, banner, EXT_INFO, DISCONNECT, EOF, unexpected type, truncated message); " + tierNote + "; non-trivial = distinct (persona, EXT_INFO variant, multiset of (deviating answer, request kind it answers)) with >=1 deviation; states = distinct abstract (persona, callback kind, pending request kind, latest list, requests so far, deviations) tuples; oracle = trace invariants + reference model ref/sshclientauth (RFC 4252/4256/8308/8332 codec, algorithm choice, signed data, standard library signature verification). part 2: real NewClientConn x real NewServerConn over a buffered in-memory connection for every client method set x server configuration (single stage and partial-success chains; every key type, signer kind and certificate x server algorithm lists); compatible pairs must authenticate")
 	c.Assume("the scripted transport stands for handshakeTransport: packets are delivered in order, DISCONNECT is turned into an error by the transport layer; BannerCallback is exercised in part 2 only")
 	c.Assume("crypto/rsa, crypto/ed25519, crypto/sha* of the standard library verify signatures correctly")
 	c.Assume("default RSA algorithm preference of a signer that states none is rsa-sha2-256, rsa-sha2-512, ssh-rsa as documented by the package (signers that state one: their order)")
 
 	full, narrow := clients(c, sp)
 	var units []unit
-	exts := func(cs *clientSpec) []int {
-		if cs.hasRSA {
+	exts := func(cs *clientSpec, all bool) []int {
+		switch {
+		case cs.hasRSA && all:
 			return []int{0, 1, 2, 3, 4, 5, 6, 7}
-		}
-		if len(cs.signers) > 0 {
+		case cs.hasRSA:
+			return []int{0, 1, 2, 4, 5, 6}
+		case len(cs.signers) > 0:
 			return []int{0, 1}
 		}
 		return []int{0, 7}
 	}
-	addUnits := func(list []*clientSpec, bound int, wide bool) {
-		for ci, cs := range list {
-			for _, persona := range []int{pAccept, pReject, pPartial} {
-				for xi, x := range exts(cs) {
-					u := unit{cs: cs, persona: persona, ext: x, bound: bound, window: 1 << 30}
-					// executions that run up to the documented cap of 64 attempts are long:
-					// deviations are explored at their first points only, one level less deep,
-					// and (signer-kind configurations) for one skeleton and EXT_INFO variant
-					long := persona == pPartial || cs.callback == cbAlwaysPw || (cs.callback == cbPwIfAllowed && persona != pAccept)
-					if long {
-						if !wide && (ci%4 != 1 || xi != 1) && !c.Thorough {
-							continue
-						}
-						u.window = 6
-						u.bound = bound - 1
-						if c.Thorough {
-							u.window = 8
-						}
-					}
-					units = append(units, u)
+	// executions that run up to the documented cap of 64 attempts are long: there,
+	// deviations are explored at the first points only and one level less deep
+	long := func(cs *clientSpec, persona int) bool {
+		return persona == pPartial || cs.callback == cbAlwaysPw || (cs.callback == cbPwIfAllowed && persona != pAccept)
+	}
+	add := func(cs *clientSpec, persona, x, bound int) {
+		u := unit{cs: cs, persona: persona, ext: x, bound: bound, window: 1 << 30}
+		if long(cs, persona) {
+			u.window, u.bound = 6, min(bound, 2)-1
+			if c.Thorough {
+				u.window, u.bound = 8, 1
+				if cs.skeleton < 0 {
+					u.bound = 2
 				}
 			}
 		}
+		u.slim = cs.skeleton >= 0 && !c.Thorough
+		units = append(units, u)
 	}
-	addUnits(full, k, true)
-	addUnits(narrow, k, false)
+	for _, cs := range full {
+		for _, persona := range []int{pAccept, pReject, pPartial} {
+			for xi, x := range exts(cs, c.Thorough) {
+				b := 2
+				if c.Thorough && cs.core && xi == 0 && persona != pPartial {
+					b = 3
+				}
+				if persona == pPartial && xi != 0 && !c.Thorough {
+					continue
+				}
+				add(cs, persona, x, b)
+			}
+		}
+	}
+	for _, cs := range narrow {
+		if !c.Thorough && (cs.skeleton == 0 || cs.skeleton > 3) {
+			continue
+		}
+		for _, persona := range []int{pAccept, pReject, pPartial} {
+			for xi, x := range exts(cs, c.Thorough) {
+				b := 2
+				if c.Thorough && cs.skeleton == 1 && xi == 1 && persona == pAccept {
+					b = 3
+				}
+				if persona == pPartial && !c.Thorough && (cs.skeleton != 1 || xi != 1) {
+					continue
+				}
+				add(cs, persona, x, b)
+			}
+		}
+	}
 	if r := c.Replay; r != nil {
 		// replay: re-run the exploration unit named in the artefact
 		want := ""
@@ -232,7 +276,7 @@ func run(c *vf.Ctx) {
 		nontriv := map[string]bool{}
 		uMax, uCap := 0, 0
 		vf.ExploreChoices(c, u.bound, false, func(ch *vf.Chooser) {
-			e := &execution{cs: u.cs, persona: u.persona, ext: u.ext, ch: ch, window: u.window}
+			e := &execution{cs: u.cs, persona: u.persona, ext: u.ext, ch: ch, window: u.window, slim: u.slim}
 			err, panicked, pval, stack := e.run()
 			c.Transition(e.trans)
 			for _, s := range e.states {
